@@ -110,6 +110,8 @@ def ff_cases(tname, table):
         m = attempt(getattr, el, "magnetic_ff")
         if not isinstance(m, BaseException):
             for charge, ff in m.items():
+                if not isinstance(charge, int) or isinstance(charge, bool):
+                    continue        # a key that is not a charge: reported by direct(), nothing to run the model on
                 for k, jn in enumerate(SETS):
                     for qn, qd in COQ_QGRID:
                         v = attempt(lambda: getattr(ff, jn + "_Q")(qn / qd))
@@ -299,6 +301,10 @@ def direct(tname, table):
             if not isinstance(m, AttributeError) and m is not None:
                 fail("magnetic_ff", el.symbol, "%s has no CrysFML entry but magnetic_ff is %r" % (el.symbol, m),
                      atom=el.symbol, observed=repr(m), expected="AttributeError")
+            continue
+        if not isinstance(m, BaseException) and any(not isinstance(k_, int) or isinstance(k_, bool) for k_ in m):
+            fail("magnetic_ff", el.symbol, "%s.magnetic_ff is keyed by %r: the charge states are integers (the CrysFML text lists %s)"
+                 % (el.symbol, sorted(map(repr, m)), sorted(exp)), atom=el.symbol, observed=repr(list(m)), expected=sorted(exp))
             continue
         if isinstance(m, BaseException) or sorted(m) != sorted(exp):
             fail("magnetic_ff", el.symbol, "%s.magnetic_ff has charge states %s, the CrysFML text lists %s"
